@@ -519,3 +519,27 @@ def blocks_extracted(src):
 
 
 EXTRA5 = (("blocks-extracted", blocks_extracted),)
+
+
+class _ToIfExp(ast.NodeTransformer):
+    """`if c: t = A else: t = B` (single assignments to the same plain target) -> `t = A if c else B`; the same for
+    `if c: return A else: return B`."""
+    def visit_If(self, node):
+        self.generic_visit(node)
+        if len(node.body) == 1 and len(node.orelse) == 1:
+            a, b = node.body[0], node.orelse[0]
+            if isinstance(a, ast.Assign) and isinstance(b, ast.Assign) and len(a.targets) == 1 and len(b.targets) == 1 and \
+                    isinstance(a.targets[0], (ast.Name, ast.Attribute)) and ast.unparse(a.targets[0]) == ast.unparse(b.targets[0]):
+                return ast.copy_location(ast.Assign(targets=a.targets, value=ast.IfExp(test=node.test, body=a.value, orelse=b.value)), node)
+            if isinstance(a, ast.Return) and isinstance(b, ast.Return) and a.value is not None and b.value is not None:
+                return ast.copy_location(ast.Return(value=ast.IfExp(test=node.test, body=a.value, orelse=b.value)), node)
+        return node
+
+
+def ifelse_to_ifexp(src):
+    tree = _ToIfExp().visit(ast.parse(src))
+    ast.fix_missing_locations(tree)
+    return ast.unparse(tree) + "\n"
+
+
+EXTRA5 = EXTRA5 + (("ifelse-to-ifexp", ifelse_to_ifexp),)
